@@ -313,8 +313,12 @@ func (r *schemaLoader) setSchemaID(target interface{}, id, basePath string) (str
 	// * registers target to be fetchable from the new base proposed by this id
 	newBasePath := normalizeURI(refPath, basePath)
 
-	// store found IDs for possible future reuse in $ref
-	r.cache.Set(newBasePath, target)
+	// store found IDs for possible future reuse in $ref: as a document of its own, like a loaded one, not as
+	// the value that is being expanded (a cache may be shared, and outlives this expansion)
+	var doc interface{}
+	if b, err := json.Marshal(target); err == nil && json.Unmarshal(b, &doc) == nil {
+		r.cache.Set(newBasePath, doc)
+	}
 
 	// the root document has an ID: all $ref relative to that ID may
 	// be rebased relative to the root document
